@@ -742,7 +742,11 @@ namespace adept {
 	total = 0;
       }
       else {
-	total.set_value(f.first_value());
+	// Assign rather than set_value so that a statement with no
+	// right-hand side is recorded: "total" may have been given the
+	// gradient index of a deleted variable, whose gradient would
+	// otherwise enter product(), which reads d[total]
+	total = f.first_value();
 	Index n = dims.size();
 	ExpressionSize<E::rank> i(0);
 	ExpressionSize<E::n_arrays> loc(0);
